@@ -118,6 +118,13 @@ def _parse(res):
         pass
     if m:
         res.generated, res.distinct = int(m.group(1)), int(m.group(2))
+    else:
+        # interrupted run: take the last progress line ("1,234 states generated (...), 567 distinct states found")
+        pm = None
+        for pm in re.finditer(r"([\d,]+) states generated \([^)]*\), ([\d,]+) distinct states found", out):
+            pass
+        if pm:
+            res.generated, res.distinct = int(pm.group(1).replace(",", "")), int(pm.group(2).replace(",", ""))
     m = re.search(r"The number of states generated:\s*(\d+)", out)
     if m and not res.generated:
         res.generated = int(m.group(1))
